@@ -21,7 +21,7 @@ from engine.symtorch import SymTensor, symbolic_factories, Dual  # noqa: E402
 from engine.explorer import Explorer  # noqa: E402
 from engine.ob import obligation, HarnessError  # noqa: E402
 
-REPO = "/repo"
+REPO = os.environ.get("VERIF_REPO", "/repo")  # development only: the registered commands never set VERIF_REPO
 
 
 def quiet():
